@@ -77,6 +77,8 @@ struct St {
     poll_hash: u64,
     worker_polls: u64,
     clock_reads: u64,
+    debug: bool,
+    debug2: bool,
 }
 
 pub struct Shared {
@@ -450,6 +452,8 @@ impl Sim {
             poll_hash: 0,
             worker_polls: 0,
             clock_reads: 0,
+            debug: std::env::var("SIM_DEBUG").is_ok(),
+            debug2: std::env::var("SIM_DEBUG").map(|v| v == "2").unwrap_or(false),
         };
         Sim {
             sh: Arc::new(Shared { st: Mutex::new(st) }),
@@ -595,6 +599,9 @@ impl Sim {
                     let id = st.ready.remove(idx);
                     st.queued[id] = false;
                     st.polls += 1;
+                    if st.debug && (st.polls % 20000 == 0 || st.debug2) {
+                        eprintln!("  [exec] polls={} now=+{}us ready={} timers={}", st.polls, (st.now - EPOCH_NS) / 1000, st.ready.len(), st.timers.len());
+                    }
                     st.poll_hash = vcore::mix(st.poll_hash, id as u64 + 1);
                     let kind = st.kinds[id];
                     if kind == TaskKind::Worker {
